@@ -46,6 +46,18 @@ def judge_panic(case, impl, model, spec):
         return ("violation", "the implementation panicked on this input")
     return ("correspondence", "implementation and model differ on this hostile input, but the implementation did not panic")
 
+def judge_c19(case, impl, model, spec):
+    if impl.startswith("PANIC"):
+        return ("violation", "the implementation panicked")
+    v = [int(x) for x in impl.split()]
+    if case.startswith("ALLOC"):
+        if v[0] != 0: return ("violation", f"{v[0]} heap allocations while demultiplexing steady-state packets (all PIDs seen, tables stable)")
+        if v[1] != 0: return ("violation", f"{v[1]} payload slices delivered to consumers lie outside the buffer passed to push")
+        if v[3] != 0: return ("violation", f"{v[3]} handler requests during the steady state")
+    if case.startswith("MEM") and v[0] != 1:
+        return ("violation", "retained heap memory keeps growing with the length of a hostile stream (or exceeds the bound)")
+    return ("correspondence", "the number of payload slices differs from the model's")
+
 COMMON_TRUSTED = [
     "Coq 8.16.1 kernel (coqc); vm_compute for finite sweeps and case evaluation; no native_compute",
     "axioms: none (every property theorem is 'Closed under the global context')",
@@ -109,7 +121,28 @@ def r_stream(toks):
 def r_c14(toks):
     return f"{'run_pes' if toks[0] == 'PES' else 'run_ppc'} false {hex_to_coq(toks[1])}"
 
+def r_c19(toks):
+    if toks[0] == "ALLOC" and len(toks[1]) + len(toks[2]) < 9000:
+        return f"run_alloc {hex_to_coq(toks[1])} {hex_to_coq(toks[2])}"
+    return None
+
 PROPS = {
+    "C19": dict(
+        props_files=["Props/C19.v"],
+        suites=["C19"],
+        render=r_c19,
+        judge=judge_c19,
+        judge_always=True,
+        rule="two-phase streams: warm-up (PAT, single- and multi-packet PMTs, one PES packet on every elementary PID, a null packet) "
+             "then a steady part of 3..19 items drawn from {repeated PAT, repeated PMT, null packet, further PES packets of every "
+             "header shape and size}, pushed in 7-packet buffers through an allocation-free application under a counting global "
+             "allocator: allocations, requests and out-of-buffer slices during the steady part must be 0 and the number of payload "
+             "slices must equal the model's; hostile streams of 3000..10500 (thorough up to 256000) packets over 25 PIDs with section- "
+             "and PES-shaped starts: live heap after the whole stream <= live heap after its first quarter + 64 KiB; distinct = distinct case lines",
+        trusted=["harness/src/quiet.rs: counting GlobalAlloc wrapper and the allocation-free recording application",
+                 "Vec's capacity policy, FixedBitSet's allocation and the system allocator are runtime behaviour outside the model (sampled)"],
+        assumptions=["no logger is installed (warn! formats nothing)", "PARTIAL: allocation counts and slice addresses are measured on generated streams, not proved"],
+    ),
     "C01": dict(
         props_files=["Props/C01.v"],
         suites=["C01"],
